@@ -47,6 +47,8 @@ def stiffness(ctx, L):
             return s['max_kind']
         if src == 'self.kind':
             return s['_cur']
+        if src == 'self.members[-1].kind':
+            return s['last_kind']
         if isinstance(v, ast.Call) and unparse(v.func) == 'max' and v.args:
             return max(eval_kind(a, s) for a in v.args)
         if isinstance(v, ast.IfExp):
@@ -69,13 +71,17 @@ def stiffness(ctx, L):
     for last_greedy in (False, True):
         for any_dyn in (False, True):
             for max_kind in (FIXED, DYNAMIC, UNLIMITED):
-                s = {'last_greedy': last_greedy, 'any_dyn': any_dyn, 'max_kind': max_kind, 'last_kind': max_kind}
+              for last_kind in (FIXED, DYNAMIC, UNLIMITED):
+                if last_kind > max_kind or (last_kind != max_kind and max_kind == UNLIMITED):
+                    continue        # an unlimited member can only be the last one (D3)
+                s = {'last_greedy': last_greedy, 'any_dyn': any_dyn, 'max_kind': max_kind, 'last_kind': last_kind}
                 s['_cur'] = FIXED
                 run_block(block, s)
                 got = s['_cur']
                 join = max(UNLIMITED if last_greedy else FIXED, DYNAMIC if any_dyn else FIXED, max_kind)
                 n += 1
-                key = 'calc_wire_stiffness|last_greedy=%s any_ext_sized=%s max_member_kind=%s' % (last_greedy, any_dyn, names[max_kind])
+                key = 'calc_wire_stiffness|last_greedy=%s any_ext_sized=%s max_member_kind=%s' % (last_greedy, any_dyn, names[max_kind]) \
+                    + ('' if last_kind == max_kind else ' last_member_kind=%s' % names[last_kind])
                 L.check(got == join, 'E6.stiffness-join', key, f.site(ifs[0]),
                         'a struct whose last member is %sgreedy, with %s ext-sized array and maximum member kind %s is classified '
                         '%s; the join of its parts is %s (a type containing an unlimited part must never be classified lower: it '
